@@ -8,43 +8,58 @@ using namespace vs;
 static RCP<const Basic> X() { return symbol("x"); }
 typedef RCP<const Basic> (*Fn)(const RCP<const Basic> &);
 
-// trigonometric functions of x + k*pi/2 (or -x + k*pi/2) for a symbolic integer k: the rewritten form must have the value given
-// by the period / co-function rules, for every real x
+// trigonometric functions of +-x + k*pi/6 for a symbolic integer k: the rewritten form (sign, co-function, residual shift) must
+// have the value given by the addition formulas, for every real x
 extern "C" void harness_c08_trig_shift()
 {
     long K = verif_param("K", 6);
     RCP<const Integer> k = sym_integer("k", -K, K);
     bool negx = verif_choice("negx", 2);
     ve::Env env;
+    env.sqrt_only = true;
     double xv = verif_real("x");
     env.val["x"] = xv;
-    double u = negx ? -xv : xv; // the non-shift part of the argument
-    RCP<const Basic> arg = add(negx ? neg(X()) : X(), mul(Rational::from_two_ints(*k, *integer(2)), pi));
+    RCP<const Basic> arg = add(negx ? neg(X()) : X(), mul(Rational::from_two_ints(*k, *integer(6)), pi));
     integer_class km;
-    mp_fdiv_r(km, k->as_integer_class(), integer_class(4));
+    mp_fdiv_r(km, k->as_integer_class(), integer_class(12));
     long m = mp_get_si(km);
-    double s = ve::Sin(u), c = ve::Cos(u);
-    if (negx) { // Sin/Cos of -x in terms of x (parity), so that both sides speak about the same uninterpreted applications
-        verif_axiom(verif_uf1("SIN", -xv) == -verif_uf1("SIN", xv));
-        verif_axiom(verif_uf1("COS", -xv) == verif_uf1("COS", xv));
-    }
+    // sin and cos of j*pi/6, j = 0..11, as exact algebraic numbers (r3 = sqrt 3)
+    double r3 = verif_uf1("ROOT2", 3.0);
+    verif_axiom(r3 > 0);
+    verif_axiom(r3 * r3 == 3.0);
+    double h = verif_rational(1, 2);
+    double S[12] = {0.0, h, r3 * h, 1.0, r3 * h, h, 0.0, -h, -(r3 * h), -1.0, -(r3 * h), -h}, C[12];
+    for (int j = 0; j < 12; j++)
+        C[j] = S[(j + 3) % 12];
+    double s = ve::Sin(xv), c = ve::Cos(xv);
+    // instances of the addition formulas and of parity for the arguments a rewritten form can contain: +-x + j*pi/6, |j| <= 3
+    for (int sg = 0; sg < 2; sg++)
+        for (int j = -3; j <= 3; j++) {
+            double base = sg ? -xv : xv, sb = sg ? -s : s, cb = c;
+            double t = base + ve::c_pi() * verif_rational(j, 6);
+            int jj = ((j % 12) + 12) % 12;
+            verif_axiom(verif_uf1("SIN", t) == sb * C[jj] + cb * S[jj]);
+            verif_axiom(verif_uf1("COS", t) == cb * C[jj] - sb * S[jj]);
+        }
+    double su = negx ? -s : s; // sin(u), cos(u) of the non-shift part u = +-x
+    double sv = su * C[m] + c * S[m], cv = c * C[m] - su * S[m]; // sin, cos of u + m*pi/6
     int f = (int)verif_choice("f", 6);
     static const Fn F[] = {sin, cos, tan, cot, sec, csc};
     RCP<const Basic> r = F[f](arg);
-    double sv = m == 0 ? s : m == 1 ? c : m == 2 ? -s : -c;  // sin(u + m*pi/2)
-    double cv = m == 0 ? c : m == 1 ? -s : m == 2 ? -c : s;  // cos(u + m*pi/2)
     // singular points of the function or of the rewritten form are outside the comparison
-    if (f >= 2)
+    if (f >= 2) {
+        verif_assume(sv != 0 && cv != 0);
         verif_assume(s != 0 && c != 0);
+    }
     double expect = f == 0 ? sv : f == 1 ? cv : f == 2 ? sv / cv : f == 3 ? cv / sv : f == 4 ? 1.0 / cv : 1.0 / sv;
     double got;
     try {
         got = ve::ev(*r, env);
     } catch (ve::Unsupported &) {
-        verif_assert(false, "the shifted trigonometric function is rewritten into functions of x");
+        verif_assert(false, "the shifted trigonometric function is rewritten into functions the oracle knows");
         return;
     }
-    verif_assert_req(got, expect, "f(x + k*pi/2) has the value given by the period and co-function rules");
+    verif_assert_req(got, expect, "f(+-x + k*pi/6) has the value given by the addition formulas");
     VERIF_END();
 }
 // special-angle table: exact values at k*pi/12 must satisfy the defining algebraic relations
@@ -56,6 +71,7 @@ extern "C" void harness_c08_trig_table()
     integer_class kk = k->as_integer_class();
     RCP<const Basic> t = ang(kk), t2 = ang(kk * 2);
     ve::Env env;
+    env.sqrt_only = true;
     RCP<const Basic> S = sin(t), C = cos(t), S2 = sin(t2), C2 = cos(t2);
     double s, c, s2, c2;
     try {
@@ -121,7 +137,12 @@ extern "C" void harness_c08_inverse()
         RCP<const Number> h = rcp_static_cast<const Number>(div(one, integer(2)));
         bool inHalf = !qn.sub(*h)->is_positive() && !qn.add(*h)->is_negative();
         bool in01 = !qn.is_negative() && !qn.sub(*one)->is_positive();
+        // known finding: the exact acot table uses the range (0, pi) for negative arguments while every numeric evaluator of the
+        // library computes acot(x) as atan(1/x) in (-pi/2, pi/2]
+        bool known = f == 3 && !inHalf && in01 && verif_known("C08/acot-exact-table-vs-numeric-branch", true);
         verif_assert((f == 1 || f == 4) ? in01 : inHalf, "the inverse function returns the principal value");
+        if (known)
+            verif_known_end();
     }
     VERIF_END();
 }
@@ -176,8 +197,8 @@ extern "C" void harness_c08_exact()
             break;
         }
         default: {
-            long i = (long)verif_choice("i", 4), j = (long)verif_choice("j", 4), k = (long)verif_choice("k", 4);
-            // product formula for the Levi-Civita symbol on {0..3}^3: sign of (j-i)(k-i)(k-j), 0 on a repeated index
+            long i = (long)verif_choice("i", 3), j = (long)verif_choice("j", 3), k = (long)verif_choice("k", 3);
+            // the Levi-Civita symbol with three indices from {0,1,2}: sign of (j-i)(k-i)(k-j), 0 on a repeated index
             long p = (j - i) * (k - i) * (k - j);
             RCP<const Basic> lc = levi_civita({integer(i), integer(j), integer(k)});
             verif_assert(eq(*lc, *integer(p > 0 ? 1 : p < 0 ? -1 : 0)), "levi_civita is the sign of the permutation (0 for a repeated index)");
@@ -193,6 +214,7 @@ extern "C" void harness_c08_gamma()
     RCP<const Integer> k = sym_integer("k", -K, K), j = sym_integer("j", -K, K);
     RCP<const Number> x = Rational::from_two_ints(*k, *integer(2)), y = Rational::from_two_ints(*j, *integer(2));
     ve::Env env;
+    env.sqrt_only = true;
     auto pole = [](const Number &v) { return is_a<Integer>(v) && !v.is_positive(); };
     auto val = [&](const RCP<const Basic> &e, bool &inf) {
         inf = eq(*e, *ComplexInf);
@@ -267,8 +289,11 @@ extern "C" void harness_c08_special()
             long s = (long)verif_choice("s", 10) - 4;
             if (s == 1)
                 verif_assert(eq(*dirichlet_eta(one), *log(integer(2))), "eta(1) == log 2");
-            else
-                verif_assert(eq(*expand(dirichlet_eta(integer(s))), *expand(mul(sub(one, pow(integer(2), integer(1 - s))), zeta(integer(s))))), "eta(s) == (1 - 2^(1-s)) zeta(s)");
+            else {
+                RCP<const Basic> et = dirichlet_eta(integer(s));
+                if (!is_a<Dirichlet_eta>(*et)) // (left unevaluated where zeta(s) has no closed form: nothing to compare)
+                    verif_assert(eq(*expand(et), *expand(mul(sub(one, pow(integer(2), integer(1 - s))), zeta(integer(s))))), "eta(s) == (1 - 2^(1-s)) zeta(s)");
+            }
             break;
         }
         case 3: { // erf, erfc parity and special values
@@ -283,7 +308,11 @@ extern "C" void harness_c08_special()
             break;
         }
         case 4: { // log of exact numbers: exp(log(v)) == v, log(1) == 0, log(E) == 1, log(p/q) value
-            RCP<const Integer> p = sym_integer("p", 1, 12), q = sym_integer("q", 1, 12);
+            // p, q prime or 1 (log(4/10) is rewritten to log(2) - log(5): comparing it would need the whole multiplicative structure
+            // of log as axioms; with prime p, q the single instance log(p/q) == log(p) - log(q) below suffices)
+            RCP<const Integer> p = sym_integer("p", 1, 11), q = sym_integer("q", 1, 11);
+            auto pr1 = [](const Integer &n) { long v = mp_get_si(n.as_integer_class()); return v == 1 || v == 2 || v == 3 || v == 5 || v == 7 || v == 11; };
+            verif_assume(pr1(*p) && pr1(*q));
             RCP<const Number> v = Rational::from_two_ints(*p, *q);
             RCP<const Basic> l = log(v);
             ve::Env env;
